@@ -210,6 +210,8 @@ class Recorder:
         self.snapshots = True
         self.want_extras = bool(scn.get('cfg', {}).get('extras', False))
         self.done_pkgs = set()
+        self.txcalls = []
+        self.txbase = {}
         self.ledger = {}
         self.ledger_seen = {}
         self.removed_seen = {}
@@ -425,12 +427,25 @@ class Recorder:
                 return lab
         return "t?" + str(trade_id)[:4]
 
+    def tx_now(self):
+        out = {}
+        if self.flumine is None:
+            return out
+        for c in self.flumine.clients:
+            for ctl in c.trading_controls:
+                if ctl.NAME == "MAX_TRANSACTION_COUNT":
+                    out[c.username] = {"cur": ctl.current_transaction_count, "curf": ctl.current_failed_transaction_count, "tot": ctl.transaction_count,
+                                       "totf": ctl.failed_transaction_count, "base": self.txbase.get(c.username, 0),
+                                       "limit": c.transaction_limit if c.transaction_limit is not None else -1}
+        return out
+
     def lat(self):
         return {"place": int(round(fconfig.place_latency * 1000)), "cancel": int(round(fconfig.cancel_latency * 1000)),
                 "update": int(round(fconfig.update_latency * 1000)), "replace": int(round(fconfig.replace_latency * 1000))}
 
     def step(self, ev, **args):
-        rec = {"ev": ev, "a": args, "trans": self.trans, "reqs": self.reqs, "pkgs": self.pkgs}
+        rec = {"ev": ev, "a": args, "trans": self.trans, "reqs": self.reqs, "pkgs": self.pkgs, "txcalls": self.txcalls, "txs": self.tx_now()}
+        self.txcalls = []
         if ev == "cb":
             rec["lat"] = self.lat()
         rec["st"] = self.proj() if self.snapshots else {}
@@ -584,6 +599,7 @@ def do_action(rec, strat, market, txn, a):
         "txn": txn is not None,
         "ctx": bool(a.get("ctx_trade")),
         "r": "NOORDER",
+        "tclient": txn._client.username if txn is not None else "",
     }
     q.update(limits_of(strat))
     order = None
@@ -634,14 +650,22 @@ def do_action(rec, strat, market, txn, a):
                 client=(txn._client.username if txn is not None else rec.flumine.clients.get_default().username),
                 lad=getattr(ot, "price_ladder_definition", None) or "CLASSIC",
             )
-            q["before"] = snapshot_req(rec, order)
             kw = {}
             if a.get("force"):
                 kw["force"] = True
+            if a.get("client") and txn is None:
+                kw["client"] = [c for c in rec.flumine.clients if c.username == a["client"]][0]
+                q["client"] = a["client"]
             if a.get("ctx_trade"):
                 with trade:
-                    r = tgt.place_order(order, market_version=_mver(a, market), **kw)
+                    # the request itself is bracketed inside the strategy's own `with trade:` block
+                    q["before"] = snapshot_req(rec, order)
+                    try:
+                        r = tgt.place_order(order, market_version=_mver(a, market), **kw)
+                    finally:
+                        q["after"] = snapshot_req(rec, order)
             else:
+                q["before"] = snapshot_req(rec, order)
                 r = tgt.place_order(order, market_version=_mver(a, market), **kw)
             q["r"] = "ACCEPT" if r else "REFUSE"
         else:
@@ -670,7 +694,7 @@ def do_action(rec, strat, market, txn, a):
     except (OrderUpdateError, OrderError) as e:
         q["r"] = "ERROR"
         q["err"] = type(e).__name__
-    if order is not None:
+    if order is not None and "after" not in q:
         q["after"] = snapshot_req(rec, order)
     rec.reqs.append(q)
 
@@ -732,6 +756,38 @@ def instrument(rec, patches):
         return _update_status
 
     patches.wrap(BaseOrder, "_update_status", mk_update_status)
+
+    from flumine.controls.clientcontrols import MaxTransactionCount
+
+    def hour_index(dt):
+        return (ms_of(dt) + T0) // 3600000 if dt is not None else -1   # hour index (fits 32 bits)
+
+    def mk_txvalidate(orig):
+        def _validate(self, order, package_type):
+            before = [self.current_transaction_count, self.current_failed_transaction_count, hour_index(self._next_hour)]
+            now = fconfig.current_time
+            ok = True
+            try:
+                return orig(self, order, package_type)
+            except Exception:
+                ok = False
+                raise
+            finally:
+                rec.txcalls.append({"client": self.client.username, "now": (ms_of(now) + T0) // 1000 if now else -1, "cur": before[0], "curf": before[1], "nexthour": before[2],
+                                    "limit": self.client.transaction_limit if self.client.transaction_limit is not None else -1, "accepted": ok,
+                                    "cur2": self.current_transaction_count, "curf2": self.current_failed_transaction_count, "nexthour2": hour_index(self._next_hour),
+                                    "kind": KIND_NAME[package_type], "o": rec.label_order(order)})
+        return _validate
+
+    patches.wrap(MaxTransactionCount, "_validate", mk_txvalidate)
+
+    def mk_setnext(orig):
+        def _set_next_hour(self):
+            rec.txbase[self.client.username] = self.transaction_count + self.failed_transaction_count
+            return orig(self)
+        return _set_next_hour
+
+    patches.wrap(MaxTransactionCount, "_set_next_hour", mk_setnext)
 
     def mk_log_control(orig):
         def log_control(self, event):
